@@ -77,6 +77,32 @@ extern "C" {
     fn munmap(addr: *mut u8, len: usize) -> i32;
 }
 const PAGE: usize = 4096;
+
+// A guard-page hit kills the process; report which case was running (bin/check shows the tail of
+// the harness output as the failing input).
+static mut CUR: [u8; 256] = [0; 256];
+static mut CUR_LEN: usize = 0;
+extern "C" {
+    fn signal(sig: i32, handler: usize) -> usize;
+    fn write(fd: i32, buf: *const u8, n: usize) -> isize;
+    fn _exit(code: i32) -> !;
+}
+extern "C" fn on_segv(_sig: i32) {
+    unsafe {
+        let msg = b"SIGSEGV: access outside the slice hit a PROT_NONE guard page in case: ";
+        write(2, msg.as_ptr(), msg.len());
+        write(2, std::ptr::addr_of!(CUR) as *const u8, CUR_LEN);
+        write(2, b"\n".as_ptr(), 1);
+        _exit(139)
+    }
+}
+fn set_cur(s: &str) {
+    unsafe {
+        let n = s.len().min(256);
+        std::ptr::copy_nonoverlapping(s.as_ptr(), std::ptr::addr_of_mut!(CUR) as *mut u8, n);
+        CUR_LEN = n;
+    }
+}
 const CANARY: u8 = 0xA5;
 
 /// `[PROT_NONE page][data pages, filled with CANARY][PROT_NONE page]`.
@@ -1060,6 +1086,7 @@ fn mem_cases<T: MemTy>(out: &mut Out, gsrc: &mut Guard, gdst: &mut Guard) {
                     }
                     let writes = !matches!(kind, Loop::IterFold | Loop::IterPad | Loop::FoldUnroll4);
                     let mut obs = Observed { chunks: vec![], bad: None, acc: None, v };
+                    set_cur(&format!("loop={kind:?} ty={} isa={} v={v} n={n} place={}", T::NAME, ISA_NAMES[w], if at_end { "end" } else { "start" }));
                     let r = hcommon::catch(|| {
                         run_isa(w, MemOp { kind, src, dst: &mut *dst, obs: &mut obs });
                     });
@@ -1722,6 +1749,9 @@ fn run(args: &Args) {
     layout_cases(&mut out, &mut rng, if t { 200 } else { 25 });
 
     // (2) loop schedules, masks, memory bounds
+    unsafe {
+        signal(11, on_segv as usize);
+    }
     let mut gsrc = Guard::new(1 << 14);
     let mut gdst = Guard::new(1 << 14);
     mem_cases::<f32>(&mut out, &mut gsrc, &mut gdst);
